@@ -37,6 +37,10 @@ CLAIMED = {
         text='Deductive proof over the real text of simple_id, simple_id_with_align, UIDGenerator::generate_unique_id and the id-assigning match of to_type_id: for every type, the runtime type id decodes (with the masks core/src/meta.capy uses) to the kind, size, alignment and sign/mutability flag of the layout tables; compound ids carry their kind and a fresh index; ids of simple types are injective -- except isize/i64 and usize/u64, a recorded known finding. Unit any_cast adds the `any` clause: cast_into_memory keeps the ORIGINAL source type and its `(_, Ty::Any)` arm stores exactly that type\'s id (4 bytes at offset 0 of the any value).',
         note='Partial: type-id and any-carries-type clauses only. compile_meta_builtins (the data reflection reads) and core/src/meta.capy are not under contract; the memo lookup of to_type_id (iterator find) is assumed; recursive calls are stubs.',
         ref='DESIGN.md 5 (C18)'),
+    'C19': dict(
+        text="Deductive proof over the real text of crates/codegen/src/convert/abi/x86_64.rs against the System V AMD64 psABI section 3.2.3 as transcribed in units/abi/spec.rs: Class::merge_eigthbyte is the psABI merge (rules a, b, d, f; commutative, associative); the post-merger clean-up of classify_arg (lifted) implements rules (c) and (d); reg_component / split_aggregate give every eightbyte of an aggregate of 1..16 bytes a register of that eightbyte's class wide enough for the bytes left, the second one starting at byte 8; fn_ty_to_abi hands out the six integer and eight vector registers left to right exactly as the psABI prescribes -- an argument gets registers only if ALL its eightbytes get one, otherwise it goes to memory and consumes none, a MEMORY-class return value costs %rdi, zero-sized arguments cost nothing -- for every signature with any number of parameters.",
+        note='Partial: classify_eight_byte (which class each field contributes) is a stub here -- fn_ty_to_abi is proved for ANY classification satisfying classes_ok; FnAbi::{to_cl,get_arg_list,ret_addr,handle_ret,build_fn} (the loads/stores that move the eightbytes) are not under contract; Cranelift is trusted to assign the host registers to the value types computed; only the x86-64 SysV file is covered (aarch64 / windows / simplified are not); comparison with the host gcc is not part of the proof.',
+        ref='DESIGN.md 5 (C19)'),
     'C25': dict(
         text='Deductive proof over the real text of LineIndex::line_col, Index<LineNr>::index and the Sub impls: for every text, every index built from it and every offset in it, line = number of newlines before the offset and column = offset - start of that line; no underflow, no out-of-bounds.',
         note='Partial: LineIndex::new (iterator chain) is assumed to build the index (index_wf); TextSize modelled as u32; std partition_point contract assumed; the "file:line:col" rendering is not under contract.',
@@ -74,7 +78,6 @@ NOT_APPLICABLE = {
 # properties that are planned but whose unit is not built yet are listed as not applicable
 # until the check exists (a manifest entry must never point at a check that cannot run)
 PENDING = {
-    'C19': 'unit not built yet (SysV classification)',
     'C25': 'unit not built yet (LineIndex::line_col)',
 }
 
